@@ -12,6 +12,15 @@ var extras = map[string]ruleFn{
 	// resolved tag value; the processors that populate are already active when a later post-processor is created
 	"C02": func(c *core.Ctx, r *core.Report) {
 		propsStageRules(c, r, "C02.R11")
+		// "start-up terminates": every recursion start-up runs through has a bound the analysis can name
+		recursionRules(c, r, "C02.R17")
+		// ... and refresh does nothing but create the eager components, each once
+		refreshRules(c, r, func(row string) string {
+			if row == "eager-only" || row == "error" || row == "creates-only" {
+				return "C02.R18"
+			}
+			return ""
+		})
 		// "distinct components": two components registered under different names have two definitions (with a shared one
 		// the second is never created, and an edge to it comes back to the other - or to the holder itself)
 		definitionRegistryTables(c, r, "", "C02.R13")
@@ -42,6 +51,9 @@ var extras = map[string]ruleFn{
 		// "every lookup by name refers to the one published version": the public lookups hand out what the registry publishes, and a name has one definition
 		lookupRules(c, r, "C03.R9")
 		definitionRegistryTables(c, r, "", "C03.R10")
+		// "no stale version survives": a component never holds a reference to itself (its own early reference would be
+		// the one dependent the stale-version check skips)
+		narrowRules(c, r, "C03.R12", "never-self")
 		// "start-up fails with an error instead of succeeding with mixed versions": the refusal raised while a
 		// post-processor is being created during the bootstrap reaches the caller
 		if bs, why := findBootstrap(c); bs != nil {
@@ -66,6 +78,9 @@ var extras = map[string]ruleFn{
 		// which processors are active when a user post-processor is created depends on its position: the embeddable
 		// markers decide nothing but what they are named after
 		markerTypeRules(c, r, "C05.R11")
+		// "all injection points set before initialization": a stage behind a presence flag is entered whenever a
+		// processor it would call has been registered
+		refiled(c, r, "C05.R12", func(sub *core.Report) { c03Flags(c, sub) })
 		// every tagged field becomes an injection point that is populated before initialization; configuration is loaded before anything is created
 		fieldScanRules(c, r, "C05.R9")
 		propertyStoreRules(c, r, "C05.R9")
@@ -79,7 +94,11 @@ var extras = map[string]ruleFn{
 	// "leaves the field untouched when it is optional": nothing but Inject / SetValue / the logger processor writes fields
 	"C07": func(c *core.Ctx, r *core.Report) {
 		// the tag value (the requested name) is the text up to the first top-level comma
-		tagRules(c, r, "C07.R11", "value", "arguments")
+		tagRules(c, r, "C07.R11", "value", "arguments", "required")
+		// every processor sees every property of the holder: the list handed to one is not the list of another
+		ownListRules(c, r, "C07.R16")
+		// the named candidate survives the narrowing (nothing but self, qualifier and the single-value preference removes one)
+		narrowRules(c, r, "C07.R17", "single-member", "slice-exact", "nothing-qualifies", "no-panic")
 		writerRules(c, r, "C07.R7")
 		isSelfTable(c, r, "C07.R8")
 		fieldScanRules(c, r, "C07.R9")
@@ -131,7 +150,12 @@ var extras = map[string]ruleFn{
 		}
 		// "does not panic": what a point wired by type is offered are the registry's components of exactly that type
 		// (anything else makes the reflect write of the injection panic)
-		depTableRules(c, r, "C09.E9", "by-type-pointer", "by-type-interface", "no-error")
+		depTableRules(c, r, "C09.E9", "by-type-pointer", "by-type-interface", "no-error", "unsupported-kind")
+		// ... and the injection itself writes exactly what the field can hold (no panic), errs exactly for a required point
+		injectRules(c, r, "C09.E13", "single", "slice", "nothing-to-inject", "wrong-property-type")
+		// a stage behind a presence flag is entered whenever a processor it would call has been registered: the
+		// points of an eagerly created post-processor are looked at like everybody's
+		refiled(c, r, "C09.E14", func(sub *core.Report) { c03Flags(c, sub) })
 		// an optional value that is not configured never fails: the placeholder stage reports no error for it
 		presenceRules(c, r, "C09.E11")
 		// post-processors are eager components too: created with the processors before them active
@@ -149,7 +173,7 @@ var extras = map[string]ruleFn{
 		// "a unique Primary always wins": the Primary test answers per type; user post-processors meet the built-in stages at their documented positions
 		typeImplementRules(c, r, "C08.R7")
 		processorOrderRules(c, r, "C08.R8")
-		tagRules(c, r, "C08.R5", "has-values", "lookup")
+		tagRules(c, r, "C08.R5", "has-values", "lookup", "arguments", "value")
 		aliasTable(c, r, "C08.R6")
 	},
 	// the ordering helper is a function of the multiset of participants (not of their enumeration order)
@@ -203,7 +227,8 @@ var extras = map[string]ruleFn{
 		tagScanRules(c, r, "C13.R6")
 		collectionRules(c, r, "C13.R6", findLifecycle(c, r, "C13.R6"))
 		// "every registered application runner": each registered name keeps a definition of its own, so it is created
-		definitionRegistryTables(c, r, "", "C13.R10")
+		// ... and is enumerated exactly once by the lookup that fills the runner collection
+		definitionRegistryTables(c, r, "C13.R10", "C13.R10")
 		componentMapCompleteRules(c, r, "C13.R11")
 	},
 	// "every registered closer is closed exactly once": the closer collection is complete and duplicate-free
@@ -250,6 +275,10 @@ var extras = map[string]ruleFn{
 		// the substituted text; the tag's text reaches the parser with its bracketed groups intact
 		depTableRules(c, r, "C16.R12", "by-name", "by-type-pointer", "by-type-interface", "func-predicate")
 		tagRules(c, r, "C16.R12", "value", "arguments")
+		// ... and the value stage binds what becomes of the substituted text, not the raw tag or a recorded lookup
+		valueStageRules(c, r, "C16.R13", "bound", "foreign")
+		// every stage is handed the component's full property list: what one stage does to its list is not seen by the next
+		ownListRules(c, r, "C16.R14")
 	},
 	// "the field receives the expression's result": binding writes a fresh value
 	"C18": func(c *core.Ctx, r *core.Report) {
@@ -272,6 +301,10 @@ var extras = map[string]ruleFn{
 		validatorConfigRules(c, r, "C18.R6")
 		// a field (also an embedded block carrying a tag) is recorded so that it is bound and validated at all
 		fieldScanRules(c, r, "C18.R11")
+		// "validation after binding": the value stage binds every value property or fails the start
+		valueStageRules(c, r, "C18.R13", "bound", "empty-required", "errors", "continues")
+		// every stage is handed the component's full property list: what one stage does to its list is not seen by the next
+		ownListRules(c, r, "C18.R14")
 		// "the field receives the expression's result": a result the field cannot hold is an error, not a silent zero
 		refiledWhere(c, r, "C18.R12", func(sub *core.Report) {
 			if prop := c.Named("component_definition", "Property"); prop != nil {
@@ -323,6 +356,10 @@ var extras = map[string]ruleFn{
 		// "receives every such component": every registered name has a definition of its own to be enumerated
 		definitionRegistryTables(c, r, "", "C06.R10")
 		componentMapCompleteRules(c, r, "C06.R11")
+		// "receives every such component": candidate lists may be shared between points of one type; narrowing one
+		// point's list leaves the list itself as it was, and every processor gets the holder's full property list
+		narrowRules(c, r, "C06.R13", "input-untouched")
+		ownListRules(c, r, "C06.R13")
 		// "receives every such component": a candidate that cannot be created fails its holder, it is not left out
 		if l := findLifecycle(c, r, "C06.R12"); l != nil {
 			populateRules(c, r, l, func(row string) string {
@@ -355,6 +392,10 @@ var extras = map[string]ruleFn{
 		propsStageRules(c, r, "C17.R9")
 		// the properties two scanners record on one definition are all kept
 		propertyStoreRules(c, r, "C17.R12")
+		// the value path has exactly one text-to-value step between the substituted tag value and the decoder
+		valueStageRules(c, r, "C17.R13")
+		// every stage is handed the component's full property list: what one stage does to its list is not seen by the next
+		ownListRules(c, r, "C17.R14")
 	},
 	// "never returns the half-built instance as if it had been created": an initialization that failed is a failed creation, every time
 	"C04": func(c *core.Ctx, r *core.Report) {
